@@ -84,6 +84,8 @@ type mvb struct {
 	tuples    map[ckTuple]bool
 	dead      bool
 	markers   int
+	ended     bool // finally ended (no reopen follows)
+	reopens   int
 	dirtyGen  int // incremented whenever an acknowledgement / non-document event advances the vBucket
 	savedGen  int // dirtyGen covered by the last successful save
 }
@@ -125,6 +127,7 @@ type session struct {
 	trackBase     int
 	lo, hi        int      // currently assigned range
 	old           []*oldEv // events of earlier sessions of this stream object (before a rebalance)
+	stopped       bool
 }
 
 type oldEv struct {
@@ -211,6 +214,170 @@ func (s *session) buildModel(nOpens int) {
 func (s *session) vbOf(idx int) *mvb {
 	n := s.hi - s.lo + 1
 	return s.vbs[uint16(s.lo+((idx%n)+n)%n)]
+}
+
+var endCauses = map[string]error{
+	"socket": gocbcore.ErrSocketClosed, "backfill": gocbcore.ErrDCPBackfillFailed, "state": gocbcore.ErrDCPStreamStateChanged,
+	"slow": gocbcore.ErrDCPStreamTooSlow, "disconnected": gocbcore.ErrDCPStreamDisconnected,
+	"socket_wrapped":  fmt.Errorf("read failed: %w", gocbcore.ErrSocketClosed),
+	"state_wrapped":   fmt.Errorf("ended: %w", gocbcore.ErrDCPStreamStateChanged),
+	"closed":          gocbcore.ErrDCPStreamClosed,
+	"filter_empty":    gocbcore.ErrDCPStreamFilterEmpty,
+	"lost_privileges": fmt.Errorf("lost privileges"),
+	"generic":         fmt.Errorf("some other failure"),
+	"ok":              nil,
+}
+
+// classification written from the property statement (errors.Is against the five transient causes)
+func transientCause(k string) bool {
+	switch k {
+	case "socket", "backfill", "state", "slow", "disconnected", "socket_wrapped", "state_wrapped":
+		return true
+	}
+	return false
+}
+
+func stopChClosed(ch chan struct{}) bool {
+	select {
+	case <-ch:
+		return true
+	default:
+		return false
+	}
+}
+
+// end (C12): the server ends the vBucket stream with the given cause.
+func (s *session) end(op hOp) {
+	m := s.vbOf(op.Vb)
+	if m == nil || m.ended || s.stopped {
+		return
+	}
+	cause, known := endCauses[op.Kind]
+	if !known {
+		return
+	}
+	o := s.cl.observer(m.vb)
+	nOpens := len(s.cl.openLog())
+	fails := 0
+	if op.Fail && transientCause(op.Kind) {
+		// the first reopen attempt is refused; the library retries after its (hard-coded) one second
+		fails = 1
+		first := true
+		s.cl.mu.Lock()
+		s.cl.openErr = func(vb uint16, _ int) error {
+			if vb == m.vb && first {
+				first = false
+				return fmt.Errorf("injected open failure")
+			}
+			return nil
+		}
+		s.cl.mu.Unlock()
+		s.label("reopen_refused_once")
+	}
+	o.End(models.DcpStreamEnd{VbID: m.vb}, cause)
+	if transientCause(op.Kind) {
+		s.label("end_transient")
+		if m.markers > 0 && len(m.all) > 0 {
+			s.label("end_transient_after_events")
+		}
+		// exactly one successful reopen, from the latest settled position
+		deadline := time.Now().Add(time.Duration(fails)*1200*time.Millisecond + 10*time.Second)
+		for {
+			ok := 0
+			for _, r := range s.cl.openLog()[nOpens:] {
+				if r.Vb == m.vb && r.Err == "" {
+					ok++
+				}
+			}
+			if ok >= 1 {
+				break
+			}
+			if time.Now().After(deadline) {
+				s.fail("C12", "vb %d: stream ended with transient cause %q but was not reopened", m.vb, op.Kind)
+				return
+			}
+			time.Sleep(200 * time.Microsecond)
+		}
+		s.cl.mu.Lock()
+		s.cl.openErr = nil
+		s.cl.mu.Unlock()
+		var rec *openRec
+		n := 0
+		for _, r := range s.cl.openLog()[nOpens:] {
+			r := r
+			if r.Vb != m.vb {
+				s.fail("C12", "end of vb %d caused an OpenStream for vb %d", m.vb, r.Vb)
+			} else if r.Err == "" {
+				rec = &r
+				n++
+			}
+		}
+		if n != 1 {
+			s.fail("C12", "vb %d: %d reopen requests after one transient end", m.vb, n)
+		}
+		if rec != nil {
+			got := ckTuple{UUID: uint64(rec.Off.VbUUID), Seq: rec.Off.SeqNo, Start: rec.Snap.StartSeqNo, End: rec.Snap.EndSeqNo}
+			if got.Seq != m.maxSettle {
+				s.fail("C12", "vb %d: reopened from seq %d, latest settled position is %d", m.vb, got.Seq, m.maxSettle)
+			} else if !m.tuples[got] {
+				s.fail("C12", "vb %d: reopened from %+v which is not the position of any settled event", m.vb, got)
+			}
+			// the server resumes after the requested position: everything above it is sent again
+			sv := s.srv[m.vb]
+			m.sentIdx = sort.Search(len(sv.hist), func(i int) bool { return sv.hist[i].Seq > got.Seq })
+			m.lastSent = got.Seq
+			m.snapValid = false
+			m.reopens++
+			if m.reopens >= 2 {
+				s.label("vb_ended_twice")
+			}
+		}
+	} else {
+		s.label("end_final")
+		m.ended = true
+		m.dead = true
+		if m.reopens > 0 {
+			s.label("vb_ended_twice")
+		}
+		time.Sleep(300 * time.Microsecond) // a wrong reopen would be issued from a goroutine
+		for _, r := range s.cl.openLog()[nOpens:] {
+			s.fail("C12", "vb %d: final end cause %q but OpenStream(vb %d) followed", m.vb, op.Kind, r.Vb)
+		}
+	}
+	s.checkActive()
+}
+
+// checkActive: active-stream count == assigned - finally ended; the client stops iff all ended.
+func (s *session) checkActive() {
+	total, ended := 0, 0
+	for _, m := range s.vbs {
+		total++
+		if m.ended {
+			ended++
+		}
+	}
+	_, active := s.st.GetMetric()
+	if int(active) != total-ended {
+		s.fail("C12", "active-stream count %d, but %d of %d assigned vBuckets have not finally ended", active, total-ended, total)
+	}
+	if ended == total {
+		deadline := time.Now().Add(10 * time.Second)
+		for !stopChClosed(s.stopCh) {
+			if time.Now().After(deadline) {
+				s.fail("C12", "every assigned vBucket stream has ended for good but the client did not stop")
+				return
+			}
+			time.Sleep(200 * time.Microsecond)
+		}
+		s.stopped = true
+		s.label("client_stopped")
+	} else {
+		time.Sleep(200 * time.Microsecond)
+		if stopChClosed(s.stopCh) {
+			s.fail("C12", "client stopped although %d of %d assigned vBucket streams are still active", total-ended, total)
+			s.stopped = true
+		}
+	}
 }
 
 // rebalance: the member is told a new range; the real stream closes, waits the (1 ms) delay and reopens.
@@ -972,12 +1139,17 @@ func runHistory(sc *hScenario, excludeF1 bool, oracles ...string) (*hViolation, 
 			s.rebalance(op)
 		case "ackold":
 			s.ackOld(op)
+		case "end":
+			s.end(op)
 		}
-		if s.viol != nil {
+		if s.viol != nil || s.stopped {
 			break
 		}
 	}
 	s.step = len(sc.Ops) + 1
+	if s.oracles["C12"] && s.viol == nil && !s.stopped {
+		s.checkActive()
+	}
 	s.finish()
 	return s.viol, s.labels, s.excluded
 }
